@@ -194,6 +194,25 @@ start_pass_huff(j_compress_ptr cinfo, boolean gather_statistics)
                               &entropy->dc_derived_tbls[dctbl]);
       jpeg_make_c_derived_tbl(cinfo, FALSE, actbl,
                               &entropy->ac_derived_tbls[actbl]);
+#ifdef WITH_SIMD
+      /* The SIMD encoders cannot detect a symbol that has no code, so use
+       * them only if every symbol that in-range coefficients can produce has
+       * a code.  Otherwise, the C encoder will report the missing code.
+       */
+      if (entropy->simd) {
+        int r, nb, max_coef_bits = cinfo->data_precision + 2;
+        c_derived_tbl *dtbl = entropy->dc_derived_tbls[dctbl];
+        c_derived_tbl *atbl = entropy->ac_derived_tbls[actbl];
+
+        for (nb = 0; nb <= max_coef_bits + 1 && nb <= 16; nb++)
+          if (dtbl->ehufsi[nb] == 0) entropy->simd = 0;
+        if (atbl->ehufsi[0] == 0 || atbl->ehufsi[0xF0] == 0)
+          entropy->simd = 0;
+        for (r = 0; r < 16; r++)
+          for (nb = 1; nb <= max_coef_bits && nb <= 15; nb++)
+            if (atbl->ehufsi[(r << 4) + nb] == 0) entropy->simd = 0;
+      }
+#endif
     }
     /* Initialize DC predictions to 0 */
     entropy->saved.last_dc_val[ci] = 0;
@@ -428,6 +447,9 @@ dump_buffer(working_state *state)
 }
 
 #define PUT_CODE(code, size) { \
+  /* Check for a symbol that has no code in the Huffman table. */ \
+  if ((size) == 0) \
+    ERREXIT(state->cinfo, JERR_HUFF_MISSING_CODE); \
   temp &= (((JLONG)1) << nbits) - 1; \
   temp |= code << nbits; \
   nbits += size; \
